@@ -166,6 +166,10 @@ class PTable(EngineBase):
                 if m == "send_signal":
                     op["sig"] = rng.choice([1, 2, 9, 15, 17, 18, 19, 64, 34,
                                             rng.randrange(1, 65)])
+                if rng.random() < 0.06:
+                    # the identity re-check cannot read /proc/<pid>/stat for
+                    # a reason that is neither "gone" nor "denied"
+                    op["deny"] = rng.choice([24, 5, 12, 23])
                 return op
             if r < 0.72:
                 kind = rng.choice(["nice", "ionice", "rlimit", "affinity"])
@@ -218,8 +222,14 @@ class PTable(EngineBase):
             if r < 0.88:
                 return {"op": "get", "h": rng.randrange(64),
                         "m": "create_time"}
-            if r < 0.94:
+            if r < 0.92:
                 return {"op": "iter", "consume": None}
+            if r < 0.95:
+                return {"op": rng.choice(["oneshot_enter", "oneshot_exit"]),
+                        "h": rng.randrange(64)}
+            if r < 0.97:
+                return {"op": "get", "h": rng.randrange(64),
+                        "m": rng.choice(["ppid", "name", "status"])}
             return {"op": "str", "h": rng.randrange(64)}
         if prop == "C04":
             if r < 0.12:
@@ -538,9 +548,14 @@ class PTable(EngineBase):
         p = h.obj
         if kind == "sig":
             m = op["m"]
-            if m == "send_signal":
-                return p.send_signal(op["sig"])
-            return getattr(p, m)()
+            if op.get("deny"):
+                k.deny = {"/proc/%d/stat" % h.pid: op["deny"]}
+            try:
+                if m == "send_signal":
+                    return p.send_signal(op["sig"])
+                return getattr(p, m)()
+            finally:
+                k.deny = {}
         if kind == "set":
             m = op["m"]
             if m == "nice":
@@ -685,7 +700,9 @@ class PTable(EngineBase):
         if recycled:
             cls_ = exc_class(psutil, out[1]) if out[0] == "exc" else None
             ok = cls_ == "NSP" or (not valid and cls_ in (
-                "ValueError", "TypeError"))
+                "ValueError", "TypeError")) or (
+                    op.get("deny") and isinstance(out[1], OSError) and
+                    getattr(out[1], "errno", None) == op["deny"])
             if not ok or deliveries:
                 self._V(st, "C01.recycled_must_raise", htags + [
                     cls_ or "returned"] + (["delivered"] if deliveries
@@ -713,7 +730,11 @@ class PTable(EngineBase):
             if e["inc"] == h.inc:
                 probe("delivered_ok")
         # clause 5: exception classes
-        if out[0] == "exc":
+        if out[0] == "exc" and op.get("deny") and isinstance(
+                out[1], OSError) and getattr(out[1], "errno", None) == \
+                op["deny"] and not deliveries:
+            probe("recheck_failed_transiently")
+        elif out[0] == "exc":
             cls = exc_class(psutil, out[1])
             denied = any(e["kind"] in ("kill_denied", "set_denied")
                          for e in eff)
